@@ -29,7 +29,8 @@ pub open spec fn pe_shape(e: Expression) -> bool decreases e {
         ExpressionKind::Case { to_match, branches, fall_through } => pe_shape(*to_match)
             && (forall|i: int| 0 <= i < branches.len() ==> pcb_shape(#[trigger] branches[i]))
             && (match fall_through { Some(b) => forall|i: int| 0 <= i < b.len() ==> ps_shape(#[trigger] b[i]), None => true }),
-        ExpressionKind::Function { body, .. } => forall|i: int| 0 <= i < body.len() ==> ps_shape(#[trigger] body[i]),
+        ExpressionKind::Function { params, ret, body, .. } => (forall|i: int| 0 <= i < body.len() ==> ps_shape(#[trigger] body[i]))
+            && (forall|k: int| 0 <= k < params.len() ==> pt_ok((#[trigger] params[k]).1)) && pt_ok(ret),
         ExpressionKind::Blob { fields, .. } => forall|i: int| 0 <= i < fields.len() ==> pe_shape((#[trigger] fields[i]).1),
         ExpressionKind::Tuple(xs) => forall|i: int| 0 <= i < xs.len() ==> pe_shape(#[trigger] xs[i]),
         ExpressionKind::List(xs) => forall|i: int| 0 <= i < xs.len() ==> pe_shape(#[trigger] xs[i]),
@@ -53,10 +54,24 @@ pub open spec fn pib_shape(b: IfBranch) -> bool decreases b {
 pub open spec fn pcb_shape(b: CaseBranch) -> bool decreases b {
     forall|i: int| 0 <= i < b.body.len() ==> ps_shape(#[trigger] b.body[i])
 }
+/// a written type whose `Resolved` parts are the seven primitive run-time types (all parse_type builds)
+pub open spec fn pt_ok(t: Type) -> bool decreases t {
+    match t.kind {
+        TypeKind::Implied => true,
+        TypeKind::Resolved(r) => r is Void || r is Nil || r is Unknown || r is Int || r is Float || r is Bool || r is String,
+        TypeKind::UserDefined(_, gs) => forall|i: int| 0 <= i < gs.len() ==> pt_ok(#[trigger] gs[i]),
+        TypeKind::Fn { params, ret, .. } => (forall|i: int| 0 <= i < params.len() ==> pt_ok(#[trigger] params[i])) && pt_ok(*ret),
+        TypeKind::Tuple(gs) => forall|i: int| 0 <= i < gs.len() ==> pt_ok(#[trigger] gs[i]),
+        TypeKind::List(t) => pt_ok(*t),
+        TypeKind::Generic(_) => true,
+        TypeKind::Grouping(t) => pt_ok(*t),
+    }
+}
 pub open spec fn ps_shape(s: Statement) -> bool decreases s {
     match s.kind {
         StatementKind::Assignment { target, value, .. } => pa_shape(target) && pe_shape(value),
-        StatementKind::Definition { value, .. } => pe_shape(value),
+        StatementKind::Definition { ty, value, .. } => pe_shape(value) && pt_ok(ty),
+        StatementKind::ExternalDefinition { ty, .. } => pt_ok(ty),
         StatementKind::Loop { condition, body } => pe_shape(condition) && ps_shape(*body),
         StatementKind::Ret { value } => match value { Some(v) => pe_shape(v), None => true },
         StatementKind::Block { statements } => forall|i: int| 0 <= i < statements.len() ==> ps_shape(#[trigger] statements[i]),
